@@ -207,6 +207,23 @@ Definition b_chroot_op (cwd root0:bytes) (o:opdesc) (args:list bytes) := b_run_o
 Definition b_run_history (cwd root0:bytes) (h:list (opdesc * list bytes)) : list (option (list bytes)) :=
   map (fun oa => b_chroot_op cwd root0 (fst oa) (snd oa)) h.
 
+(* ---- NESTED wrappers: NewChrootFs(NewChrootFs(inner, lower0), upper0) ----
+   NewChrootFs does not look inside the filesystem it wraps (Gen/ChrootOps.v: constructor_fs_uses, chroot_type_tests), so
+   the upper wrapper treats the lower one like any afero.Fs: an operation on the upper wrapper that is let through calls
+   the same method of the lower wrapper with the joined paths as its arguments. *)
+Definition b_nested_op (cwd lower0 upper0:bytes) (o:opdesc) (args:list bytes) : option (list bytes) :=
+  match b_chroot_op cwd upper0 o args with
+  | None => None
+  | Some ps => b_chroot_op cwd lower0 o ps
+  end.
+
+(* ---- letter case: ASCII lower-casing, only used to STATE that the model applies none ---- *)
+Definition to_lower (c:ascii) : ascii :=
+  let n := nat_of_ascii c in if (65 <=? n) && (n <=? 90) then ascii_of_nat (n + 32) else c.
+(* p and q are equal except for byte number i, where they hold the two cases of one letter *)
+Definition case_variant_at (i:nat) (p q:bytes) : Prop :=
+  exists pre c d post, p = pre ++ c :: post /\ q = pre ++ d :: post /\ List.length pre = i /\ c <> d /\ to_lower c = to_lower d.
+
 (* ---- the bridge to the segment model (Path.v) ---- *)
 
 (* a rooted cleaned path, from its names *)
@@ -276,5 +293,16 @@ Definition c18h_ok (state:list string) (ops:list opdesc) (c:c18h_case) : bool :=
     match state, steps_of ops steps with
     | [], Some h => list_eqb (option_eqb (list_eqb bytes_eqb)) (b_run_history cwd root0 h) obs
     | _, _ => false   (* a wrapper that keeps state between calls is outside the history model *)
+    end
+  end.
+
+(* nested wrappers: (operation index, working directory, root given to the LOWER NewChrootFs, root given to the UPPER
+   NewChrootFs, raw arguments of the call on the upper wrapper, the exact strings the recording innermost filesystem got) *)
+Definition c18n_case := (nat * bytes * bytes * bytes * list bytes * option (list bytes))%type.
+Definition c18n_ok (ops:list opdesc) (c:c18n_case) : bool :=
+  match c with (i, cwd, lower0, upper0, args, obs) =>
+    match nth_error ops i with
+    | None => false
+    | Some o => option_eqb (list_eqb bytes_eqb) (b_nested_op cwd lower0 upper0 o args) obs
     end
   end.
